@@ -58,6 +58,12 @@ impl FrequentItemValue for String {
             Error::insufficient_data("failed to read string item length".to_string())
         })?;
 
+        // The length comes from the image: nothing is allocated before the bytes are known to be there.
+        if len as usize > cursor.remaining() {
+            return Err(Error::insufficient_data(
+                "failed to read string item bytes".to_string(),
+            ));
+        }
         let mut slice = vec![0; len as usize];
         cursor.read_exact(&mut slice).map_err(|_| {
             Error::insufficient_data("failed to read string item bytes".to_string())
